@@ -82,11 +82,12 @@ class Solver(object):
     def external(self, smt2):
         """Ask the other installed solvers; only `unsat` counts as proved, `sat` as refuted"""
         with tempfile.NamedTemporaryFile("wt", suffix=".smt2", delete=False) as f:
-            f.write("(set-logic ALL)\n" + smt2 + "\n")
+            f.write("(set-logic ALL)\n" + smt2 + "\n(get-model)\n")
             fn = f.name
+        self.last_model = None
         try:
             for name, cmd in (
-                ("cvc5-1.0.3", ["/usr/bin/cvc5", "--strings-exp", "--tlimit=%d" % self.timeout_ms, fn]),
+                ("cvc5-1.0.3", ["/usr/bin/cvc5", "--strings-exp", "--produce-models", "--tlimit=%d" % self.timeout_ms, fn]),
                 ("z3-4.8.12", ["/usr/bin/z3", "-T:%d" % max(1, self.timeout_ms // 1000), fn]),
             ):
                 if not os.path.exists(cmd[0]):
@@ -101,34 +102,71 @@ class Solver(object):
                 if first == "unsat":
                     return PROVED, name
                 if first == "sat":
+                    self.last_model = parse_model(out)
                     return REFUTED, name
             return UNDECIDED, "none (unknown/timeout in z3-5.1, cvc5, z3-4.8)"
         finally:
             os.unlink(fn)
 
 
-def solve_smt2(args):
-    """Worker: decide one obligation from its SMT-LIB text. -> (status, backend, seconds, model dict or None)"""
-    text, timeout_ms = args
-    t = time.time()
+def parse_model(out):
+    """(define-fun |name| () Sort value) lines of a (get-model) answer -> {name: value text} (nullary constants only)"""
+    import re
+
+    model = {}
+    for m in re.finditer(r'\(define-fun\s+(\|[^|]*\||\S+)\s+\(\)\s+(String|Int|Bool)\s+((?:"(?:[^"]|"")*")|\(-\s*\d+\)|[^\s()]+)\s*\)', out):
+        name = m.group(1).strip("|")
+        val = m.group(3)
+        if m.group(2) == "Int":
+            val = val.replace("(", "").replace(")", "").replace(" ", "")
+        elif m.group(2) == "Bool":
+            val = "True" if val == "true" else "False"
+        model[name] = val
+    return model
+
+
+def _z3_text(text, timeout_ms):
     s = z3.Solver()
     s.set("timeout", timeout_ms)
-    try:
-        s.from_string(text)
-        r = s.check()
-    except z3.Z3Exception as ex:
-        return UNDECIDED, "z3 could not re-read the obligation: %s" % str(ex)[:100], time.time() - t, None
-    dt = time.time() - t
-    be = "z3-%s" % z3.get_version_string()
-    if r == z3.unsat:
-        return PROVED, be, dt, None
+    s.from_string(text)
+    r = s.check()
     if r == z3.sat:
         try:
             m = s.model()
-            model = {str(d): str(m[d]) for d in m.decls() if not str(d).startswith("uf:")}
+            return r, {str(d): str(m[d]) for d in m.decls() if not str(d).startswith("uf:")}
         except z3.Z3Exception:
-            model = {}
-        return REFUTED, be, dt, model
+            return r, {}
+    return r, None
+
+
+def solve_smt2(args):
+    """
+    Worker: decide one obligation from its SMT-LIB text. -> (status, backend, seconds, model dict or None)
+    Order: z3 5.1 with a short budget (most obligations take milliseconds), then cvc5 --strings-exp and z3 4.8 with the
+    full budget, then z3 5.1 again with the full budget.  Only `unsat` counts as proved, only `sat` as refuted.
+    """
+    text, timeout_ms = args
+    t = time.time()
+    be = "z3-%s" % z3.get_version_string()
+    short = min(timeout_ms, 3000)
+    try:
+        r, model = _z3_text(text, short)
+    except z3.Z3Exception as ex:
+        return UNDECIDED, "z3 could not re-read the obligation: %s" % str(ex)[:100], time.time() - t, None
+    if r == z3.unsat:
+        return PROVED, be, time.time() - t, None
+    if r == z3.sat:
+        return REFUTED, be, time.time() - t, model
     sv = Solver(timeout_ms=timeout_ms)
     st, be2 = sv.external(text)
-    return st, be2, time.time() - t, None
+    if st != UNDECIDED or short >= timeout_ms:
+        return st, be2, time.time() - t, (sv.last_model if st == REFUTED else None)
+    try:
+        r, model = _z3_text(text, timeout_ms)
+    except z3.Z3Exception:
+        r, model = z3.unknown, None
+    if r == z3.unsat:
+        return PROVED, be, time.time() - t, None
+    if r == z3.sat:
+        return REFUTED, be, time.time() - t, model
+    return UNDECIDED, be2, time.time() - t, None
